@@ -26,19 +26,24 @@ OBLIGATIONS = [
     {"id": "C06_G5", "theorem": "Iora.C06.G5_kernel_interface", "kind": "proved",
      "statement": "send flags exactly MSG_NOSIGNAL, recv flags 0, plain non-blocking SOCK_DGRAM sockets, setsockopt only SO_RCVBUF/SO_SNDBUF/IPV6_V6ONLY"},
     {"id": "C06_G6", "theorem": "Iora.C06.G6_address_key", "kind": "proved",
-     "statement": "key() = numeric host ':' numeric service of the whole address (both families); addressFromSockaddr = host+port; sessions keep the whole sockaddr"},
+     "statement": "key() = numeric host ':' numeric service of the whole address (both families), buffers NI_MAXHOST/NI_MAXSERV-sized (or >= 63 / >= 6) and passed by sizeof, "
+                  "failure returns \"\" and both users refuse an empty key before touching _peerIndex; addressFromSockaddr = host+port; sessions keep the whole sockaddr"},
     {"id": "C06_G7", "theorem": "Iora.C06.G7_id_counters", "kind": "proved",
      "statement": "_nextSessionId/_nextListenerId are std::atomic starting at 1; _nextSessionId++ only in connect, connectViaListener, readFromListener"},
     {"id": "C06_T1_once", "theorem": "Iora.C06.T1_at_most_one", "kind": "proved",
      "statement": "for every history no two sent datagrams belong to the same accepted send (EAGAIN queues, flushes, overflow drops, closes included)"},
     {"id": "C06_T1_faithful", "theorem": "Iora.C06.T1_faithful", "kind": "proved",
      "statement": "for every history a sent datagram with token t: input t is cmdSend sid <same bytes>, sid was open then, dest = its peer then, socket = its socket"},
+    {"id": "C06_T2_keyneeded", "theorem": "Iora.C06.T2_refuted_without_injective_key", "kind": "proved",
+     "statement": "KeyInjective is necessary: with a key() that merges two addresses (seed C06-c) the second peer gets no accept and lands on the first peer's session"},
+    {"id": "C06_T2_keyfail", "theorem": "Iora.C06.T2_key_failure_isolated", "kind": "proved",
+     "statement": "a datagram / connect-via-listener whose key() fails (getnameinfo error) is reported and dropped / refused; nothing is created or indexed (FC06a repair)"},
     {"id": "C06_T2_inv", "theorem": "Iora.C06.T2_index_sound", "kind": "proved",
      "statement": "after every history each index entry points to an open ServerPeer session of that very peer AND every open session id is < nextSid (ids never reused)"},
     {"id": "C06_T2_mono", "theorem": "Iora.C06.T2_nextSid_monotone", "kind": "proved",
      "statement": "nextSid never decreases (with T2_index_sound: a new session never takes the id of an open or earlier session)"},
     {"id": "C06_T2_one", "theorem": "Iora.C06.T2_one_datagram", "kind": "proved",
-     "statement": "after every history one admitted datagram of 1..65507 bytes = exactly one data event, whole, on a session of its sender; accept iff unknown"},
+     "statement": "HYPOTHESIS KeyInjective cfg.key; after every history one admitted datagram of 1..65507 bytes = exactly one data event, whole, on a session of its sender; accept iff unknown"},
     {"id": "C06_T2_counter", "theorem": "Iora.C06.T2_counter_exact", "kind": "proved",
      "statement": "after every history sessionsCurrent (what the cap is tested against) = number of open sessions"},
     {"id": "C06_T2_refused", "theorem": "Iora.C06.T2_refused_exactly", "kind": "proved",
@@ -77,11 +82,13 @@ MAXDG = 65507
 V4_LOCAL = [0, 1, 2, 3, 4]      # 127.0.0.1, distinct ports
 V4_OTHER = [5, 6]               # 127.0.0.2, SAME ports as peers 0 and 1
 V6 = [7]                        # ::1, same port as peer 0
+MAPPED = 10                     # address id 10+k = IPv4 peer k as a dual-stack ("::") listener sees it: ::ffff:127.0.0.x:<port> (host of 16+ characters)
+KEY_ANCHORS = ("key", "addressFromSockaddr", "readFromListener", "viaDo")   # a change here forces extra long-address cases
 
-# body hashes of the mirrored C++ functions at the time the model was reviewed (tree = /repo HEAD 917a190, F17 and F30 included); a
+# body hashes of the mirrored C++ functions at the time the model was reviewed (tree = /repo HEAD 6357b3c + fixes/FC06a); a
 # difference is reported in the evidence ("mirrored source changed since the model was reviewed"), it is NOT an alarm: the lockstep decides.
-REVIEWED_ANCHORS = {"readFromListener": "0fc1a2b6bcc6b684", "onClient": "6369b4f050f08873", "connectDo": "e39df8c854b7fcfc",
-                    "viaDo": "8dd0f624e79b440d", "sendDo": "394eac844294f72c", "flushListener": "29f73234632388ee",
+REVIEWED_ANCHORS = {"readFromListener": "eb7bfaf78858aa8d", "onClient": "6369b4f050f08873", "connectDo": "e39df8c854b7fcfc",
+                    "viaDo": "d8157dd075d5be93", "sendDo": "394eac844294f72c", "flushListener": "29f73234632388ee",
                     "writeClient": "1f8857d0c0cc1bd0", "closeNow": "62ca6ab7c0e25b36", "runGc": "0dacf43630d8a35b",
                     "shutdownDrain": "1933b31c08bbe965", "updateListener": "0f20c0f2a9bff3e5", "updateClient": "b5487b42a89214cd",
                     "process": "e158fb026fb1d6df", "addListenerDo": "f5a0bddd51a71540", "key": "f6e238fdeb9ad40d",
@@ -176,10 +183,14 @@ class Sketch:
             return rng.choice(sorted(self.lq))
         return rng.choice([0, self.nl + 1, 9, max(1, self.nl)])
 
-    def listen(self, fam):
+    def listen(self, fam):          # 4, 6, or 0 = dual-stack
         self.nl += 1
         self.lq[self.nl] = 0
         self.lfam[self.nl] = fam
+
+    def addr_on(self, lid, p):
+        """the address id under which raw peer p appears on listener lid"""
+        return p + MAPPED if self.lfam.get(lid) == 0 and p < 7 else p
 
     def arrive(self, lid, p):
         if p not in self.ix and not self.cap():
@@ -233,17 +244,23 @@ class Gen:
         self.big_budget = 2
         self.idle_ms = cfg.get("idle", 600) * 1000
         # which peers take part: always some on 127.0.0.1; often the same-port twins on 127.0.0.2 / ::1 (the host and the family matter)
+        self.dual = cat == "dual" or rng.chance(1, 6)
         if cat == "same-peer":
             self.peers = rng.choice([[0], [0, 1], [0, 5], [0, 5, 7], [1, 6]])
+        elif cat == "dual":
+            self.peers = rng.choice([[0, 1], [0, 5], [0, 1, 5, 6], [0, 5, 7], [0, 1, 2, 5, 6, 7]])
         elif cat == "same-key":
             self.peers = rng.choice([[0, 5], [0, 5, 7], [0, 1, 5, 6], [0, 7], [0, 1, 5, 6, 7]])
         else:
             self.peers = rng.choice([[0, 1], [0, 1, 2], [0, 1, 2, 3, 4], [0, 2, 5], [0, 1, 5, 6, 7], [0, 1, 2, 3, 4, 5, 6, 7]])
         self.ops = ["reset" + "".join(" %s=%d" % kv for kv in sorted(cfg.items()))]
-        for _ in range(rng.choice([1, 1, 2, 3])):
+        if self.dual:
+            self.ops.append("listenD")
+            self.g.listen(0)
+        for _ in range(rng.choice([0, 1]) if cat == "dual" else rng.choice([1, 1, 2, 3])):
             self.ops.append("listen")
             self.g.listen(4)
-        if any(p in V6 for p in self.peers):
+        if any(p in V6 for p in self.peers) and not (cat == "dual" and rng.chance(1, 2)):
             self.ops.append("listen6")
             self.g.listen(6)
 
@@ -255,8 +272,16 @@ class Gen:
         return pl
 
     def peer_for(self, fam):
-        c = [p for p in self.peers if fam_of(p) == fam]
+        c = [p for p in self.peers if fam == 0 or fam_of(p) == fam]
         return self.rng.choice(c) if c else None
+
+    def target(self, lid=None):
+        """an address id to connect to: a peer as it is, or (for a dual-stack listener / a v6 client socket) its v4-mapped form"""
+        p = self.rng.choice(self.peers)
+        fam = self.g.lfam.get(lid) if lid is not None else (0 if self.dual and self.rng.chance(1, 3) else None)
+        if fam == 0 and p < 7 and not self.rng.chance(1, 8):
+            return p + MAPPED
+        return p
 
     # ---- atoms
     def a_dg(self, lid=None):
@@ -268,12 +293,14 @@ class Gen:
             p = self.peer_for(fam)
             if p is None:
                 break
-            dgs.append((p, self.payload(big_ok=not dgs)))
+            bad = "!" if rng.chance(1, 60) else ""        # getnameinfo fails for this one datagram
+            dgs.append((p, self.payload(big_ok=not dgs) + bad))
         if not dgs:
             return None
         if lid in g.lq:
-            for p, _ in dgs:
-                g.arrive(lid, p)
+            for p, pl in dgs:
+                if not pl.endswith("!"):
+                    g.arrive(lid, g.addr_on(lid, p))
         return "dg %d %s" % (lid, ",".join("%d:%s" % d for d in dgs))
 
     def a_cdg(self):
@@ -283,16 +310,20 @@ class Gen:
     def a_via(self):
         g, rng = self.g, self.rng
         lid = g.any_lid(rng)
-        p = rng.choice(self.peers)
+        p = self.target(lid)
+        if p >= MAPPED and g.lfam.get(lid) == 6:
+            p -= MAPPED                                   # (a v4-mapped target on the ::1 socket is refused by the harness)
         sid = g.next_sid
         g.next_sid += 1
-        if lid in g.lq and g.lfam[lid] == fam_of(p) and not g.cap():
+        bad = rng.chance(1, 40)
+        lfam6 = g.lfam.get(lid) in (0, 6)
+        if not bad and lid in g.lq and lfam6 == (p >= 7) and not g.cap():
             g.sess[sid] = ["p", p, lid]
             g.ix.setdefault(p, sid)
-        return "via %d %d" % (lid, p)
+        return "via %d %d%s" % (lid, p, " !" if bad else "")
 
     def a_connect(self):
-        p = self.rng.choice(self.peers)
+        p = self.target()
         self.g.sess[self.g.next_sid] = ["c", p, 0]
         self.g.next_sid += 1
         return "connect %d" % p
@@ -412,8 +443,12 @@ class Gen:
                 g.lq, g.lfam = {}, {}
                 self.ops.append(t)
                 if rng.chance(2, 3):
-                    self.ops.append("listen")
-                    g.listen(4)
+                    if self.dual and rng.chance(1, 2):
+                        self.ops.append("listenD")
+                        g.listen(0)
+                    else:
+                        self.ops.append("listen")
+                        g.listen(4)
                 continue
             if t:
                 self.ops.append(t)
@@ -495,6 +530,7 @@ def monitor_case(c, impl):
     capped = cfg.get("ms", 0) > 0
     chunk = cfg.get("chunk", None)
     relaxed = capped or (chunk is not None and chunk < MAXDG)
+    dual_l = set()        # listener numbers that are dual-stack (from the ops and the implementation's own L<k> answers)
     peer_of = {}          # sid -> peer (from the implementation's accept / connected events)
     open_s = set()
     recv_on = {}          # peer -> session that receives this peer's datagrams on listener sockets (from data events)
@@ -511,6 +547,16 @@ def monitor_case(c, impl):
             continue
         evs, st = pa
         atoms = atoms_of(op)
+        if op == "listenD" and evs and evs[0].startswith("L"):
+            dual_l.add(evs[0][1:])
+            evs = []
+        elif evs and re.fullmatch(r"L\d+", evs[0]):
+            evs = []
+        # independent check of the index keys: every live ServerPeer session's pkey, and every index key, must be the harness's own
+        # numeric formatting of the peer's address; an empty or different key means distinct peers can share one session
+        if "!key" in st.get("s", "") or re.search(r"(^|,)\?>", st.get("ix", "")):
+            bad.append("T2: a session's index key is not the numeric host:port of its peer (empty or truncated key(): distinct peers would share one session) "
+                       "(op `%s` -> ix=%s s=%s)" % (op[:60], st.get("ix", "")[:60], st.get("s", "")[:80]))
         announced = {}
         for e in evs:
             if e[0] in "AN" and "@" in e:
@@ -525,14 +571,20 @@ def monitor_case(c, impl):
                     sends.append([n, crc, peer_of.get(sid, announced.get(sid)), sid])
         # arrivals of this op
         arrivals = []         # [kind, peer-or-sid, n, crc, group, optional]
+        keyfailed = set()
         for gi, t in enumerate(atoms):
             if t[0] == "dg" and len(t) == 3:
                 if ("L%s:" % t[1]) not in st.get("l", ""):
                     continue
                 for item in t[2].split(","):
-                    p, pl = item.split(":")
+                    keyfail = item.endswith("!")
+                    p, pl = item.rstrip("!").split(":")
                     n, crc = expand(pl)
-                    if n >= 1:
+                    if t[1] in dual_l and int(p) < 7:
+                        p = str(int(p) + MAPPED)          # an IPv4 peer appears on a dual-stack listener under its v4-mapped address
+                    if keyfail:
+                        keyfailed.add((n, crc))           # getnameinfo failed for it: must be dropped, never delivered or indexed
+                    elif n >= 1:
                         arrivals.append(["L", p, n, crc, gi, False])
             elif t[0] == "cdg" and len(t) == 3:
                 sid = int(t[1])
@@ -556,6 +608,8 @@ def monitor_case(c, impl):
                 peer_of[sid] = p
                 open_s.add(sid)
                 if k == "A":
+                    if p == "?":
+                        bad.append("T2: accept from an address the harness never used (mangled peer address) (op `%s`)" % op[:60])
                     if not any(t[0] == "dg" for t in atoms):
                         bad.append("T2: accept outside a datagram arrival: %s in `%s`" % (e, op[:60]))
                     cur = recv_on.get(p)
@@ -603,6 +657,10 @@ def monitor_case(c, impl):
                 cand = [i for i in by_key.get((dn, dcrc), []) if i not in taken]
                 if not cand and chunk is not None and chunk < MAXDG:
                     cand = [i for i, a in enumerate(arrivals) if i not in taken and a[2] > chunk and dn == chunk][:1]   # truncated by the configured small buffer
+                if not cand and (dn, dcrc) in keyfailed:
+                    bad.append("T2: a datagram whose peer key could not be formed (getnameinfo failed) was delivered on session %d: it is indexed under the EMPTY key, "
+                               "which every such peer shares (op `%s`)" % (sid, op[:80]))
+                    continue
                 if not cand:
                     bad.append("T2: data event D%d:%d:%d is not one of the datagrams that arrived (merged, split, truncated, altered or duplicated) (op `%s`)"
                                % (sid, dn, dcrc, op[:80]))
@@ -779,7 +837,7 @@ def replay(ctx):
     return 1 if still else 0
 
 
-CATS = [("default", 28), ("same-peer", 16), ("same-key", 10), ("queue", 14), ("cap", 8), ("gc", 9), ("mixed", 11), ("small-chunk", 4)]
+CATS = [("default", 26), ("same-peer", 14), ("same-key", 9), ("dual", 9), ("queue", 13), ("cap", 7), ("gc", 8), ("mixed", 10), ("small-chunk", 4)]
 
 
 def run(ctx: Ctx):
@@ -788,8 +846,14 @@ def run(ctx: Ctx):
     quick = ctx.tier == "quick"
     ncases = 2500 if quick else 30000
     rng = ctx.rng
+    changed = []
     if ctx.translate(["udp"]):
-        ctx.extra["mirrored_source_changed_since_review"] = anchors_changed(ctx)
+        changed = anchors_changed(ctx)
+        ctx.extra["mirrored_source_changed_since_review"] = changed
+    force_long = [k for k in changed if k in KEY_ANCHORS]
+    if force_long:
+        ctx.log("NOTE: %s changed since the model was reviewed: running extra long-address (dual-stack / v4-mapped / same-port) cases" % ", ".join(force_long))
+        ctx.notes.append("key()/address code changed since review (%s): extra long-address cases were run" % ", ".join(force_long))
     ok_build = ctx.lake_build(MODULES)
     if ok_build:
         ctx.audit(MODULES, OBLIGATIONS)
@@ -811,6 +875,9 @@ def run(ctx: Ctx):
         for cat, w in CATS:
             for i in range(ncases * w // total):
                 rest.append(gen_case(grng, cat, grng.choice([8, 12, 20, 30, 40, 40])))
+        if force_long:
+            for i in range(max(150, ncases // 8)):
+                rest.append(gen_case(grng, "dual" if i % 3 else "same-key", grng.choice([12, 20, 30])))
         grng.shuffle(rest)          # every chunk sees every category
         chunk_n = 500 if quick else 2500
         chunks = [first] + [rest[i:i + chunk_n] for i in range(0, len(rest), chunk_n)]
@@ -832,7 +899,7 @@ def run(ctx: Ctx):
                         toks = []
                         if t[0] == "dg" and len(t) == 3:
                             for x in t[2].split(","):
-                                p, pl = x.split(":")
+                                p, pl = x.rstrip("!").split(":")
                                 peers_used[p] = peers_used.get(p, 0) + 1
                                 toks.append(pl)
                         elif t[0] == "cdg" and len(t) == 3:
@@ -904,8 +971,10 @@ NOT_PROVED = [
     "flavour handles them (Model.batchOrder; the harness exercises both flavours); API calls on other threads only enqueue commands, so their order is the step order. "
     "Concurrent callers racing on the id counter are outside the model (G7 pins the counter to std::atomic)",
     "zero-length datagrams are outside the property (sizes 1..65507): on a listener they are consumed without an event, on a client socket they are delivered as an empty view and end the read loop (modelled as such)",
-    "the index key is identified with the socket address: key()'s and addressFromSockaddr's SHAPES are pinned by G6 and exercised with same-port peers on 127.0.0.1 / 127.0.0.2 / ::1, "
-    "but getnameinfo's injectivity itself, v4-mapped addresses on a dual-stack listener and scoped IPv6 addresses are assumed / not exercised",
+    "KeyInjective (distinct socket addresses have distinct key() strings) is an explicit HYPOTHESIS of T2_one_datagram, T2_burst, T3_next_datagram and T3_trace, not a theorem: "
+    "G6 pins what the source decides (shape, buffer sizes, empty key refused); getnameinfo itself is exercised, not proved — same-port peers on 127.0.0.1 / 127.0.0.2 / ::1, "
+    "and the v4-mapped forms ::ffff:127.0.0.x:<port> (16+ character hosts) on a dual-stack listener, with a monitor that compares every live session's pkey with the harness's own "
+    "inet_ntop formatting (corpus m3-*, c06c-*, categories same-key and dual). Long native / scoped IPv6 addresses are not exercised (adding addresses to lo needs privileges)",
     "G5 pins the flags and socket options the engine passes TODAY; what an option that is not on the whitelist would do is not modelled (the obligation simply fails)",
 ]
 ASSUMPTIONS = [
